@@ -17,6 +17,10 @@ FLOORS = {
               "cases[ScriptedChangeDetector]": 100, "cases[PELT]": 100, "wrapped_untouched_checks": 800},
     "thorough": {"distinct_nontrivial": 4000, "segments_checked": 50000},
 }
+ANCHORS = [
+    "skchange.anomaly_detectors.anomalisers.StatThresholdAnomaliser._fit",
+    "skchange.anomaly_detectors.anomalisers.StatThresholdAnomaliser._predict",
+]
 LEVEL = "exploration"
 RULE = (
     "case = StatThresholdAnomaliser(wrapped in {PELT, MovingWindow, SeededBinarySegmentation (zoo "
